@@ -1,9 +1,9 @@
 #!/bin/sh
 # tools/seed_c.sh Cxx : confirm the round-c seeded change of a sub-agent (tests pass, demo fails / passes), file it under
 # seeded/Cxx-c, drop the agent's worktree, then run the quick check against it in a scratch worktree
-ID=$1
+ID=$1; SUF=${2:-c}
 cd /verif
-tools/confirm_seed.sh $ID c > /tmp/seedrun/confirm_$ID.log 2>&1
+tools/confirm_seed.sh $ID $SUF > /tmp/seedrun/confirm_$ID.log 2>&1
 git -C /repo worktree remove --force /tmp/mut/$ID 2>/dev/null
 cat /tmp/seedrun/confirm_$ID.log | grep -A2 "^==" | grep -v "^--"
-tools/seed_check.sh seeded/$ID-c $ID
+tools/seed_check.sh seeded/$ID-$SUF $ID
